@@ -14,6 +14,43 @@
 #include <cstring>
 #include <cstdlib>
 #include <stdexcept>
+#include <sstream>
+#include <iostream>
+#include <fstream>
+#include <istream>
+#include <ostream>
+#include <streambuf>
+#include <locale>
+#include <iomanip>
+#include <iterator>
+#include <functional>
+#include <utility>
+#include <limits>
+#include <typeinfo>
+#include <new>
+#include <deque>
+#include <stack>
+#include <queue>
+#include <bitset>
+#include <numeric>
+#include <complex>
+#include <exception>
+#include <atomic>
+#include <mutex>
+#include <thread>
+#include <condition_variable>
+#include <chrono>
+#include <unordered_map>
+#include <unordered_set>
+#include <array>
+#include <tuple>
+#include <type_traits>
+#include <cassert>
+#include <cstdio>
+#include <ctime>
+#include <cmath>
+#include <climits>
+#include <cerrno>
 #ifndef VERIF_NATIVE
 template class std::basic_string<char>;
 #endif
